@@ -39,7 +39,7 @@ ASSUMPTIONS = [
 ]
 BUDGET = {
     "quick": dict(cases=1500, shards=4, timeout=1800),
-    "thorough": dict(cases=3000, shards=16, timeout=5400),
+    "thorough": dict(cases=5000, shards=16, timeout=5400),
 }
 SMALL = ["small_ragged", "small_repeats", "small_alphabet1", "small_tie_costs", "small_hyp_longer",
          "small_unequal_costs"]
@@ -63,7 +63,7 @@ FLOORS = {
         "distinct": 1500,
     },
     "thorough": {
-        "events": {"optimal_completion": 60000, "hard_optimal_completion_distillation_loss": 20000,
+        "events": {"optimal_completion": 50000, "hard_optimal_completion_distillation_loss": 12000,
                    "assert:targets-exact": 500000, "assert:targets-definitional": 100000},
         "classes": dict({c: 1500 for c in OC_CLASSES}, exhaustive2=23064,
                         **{c: 1500 for c in LOSS_CLASSES}),
